@@ -48,6 +48,24 @@ func Generate(t *core.Tape, opt core.RunOpt) *Case {
 			op.Kind = "global"
 		} else {
 			op.Kind = "add"
+			if !small && len(c.Ops) > 0 && t.Chance(1, 4) {
+				// a scope around an earlier one - function-level @ignore over an inline one,
+				// file-level over function-level - often with the very same codes
+				prev := c.Ops[t.Draw(len(c.Ops))]
+				if prev.Kind == "add" {
+					op.Start = prev.Start - t.Draw(5)
+					if op.Start < 1 {
+						op.Start = 1
+					}
+					op.End = prev.End + t.Draw(140)
+					if t.Chance(1, 2) {
+						op.Tokens = append([]string(nil), prev.Tokens...)
+					}
+					bounds = append(bounds, op.Start, op.End, prev.End+1, op.End-1)
+					c.Ops = append(c.Ops, op)
+					continue
+				}
+			}
 			if len(bounds) > 0 && t.Chance(1, 4) {
 				// duplicate / nested / abutting ranges
 				b := bounds[t.Draw(len(bounds))]
